@@ -418,6 +418,23 @@ sa_addr_from_str(sockaddr_storage_p addr,
 	return (EINVAL);
 }
 
+/* Decimal number: digits only, no overflow, not greater than max_val. */
+static int
+sa_str_is_udec(const char *str, size_t str_size, uint32_t max_val) {
+	size_t i;
+	uint32_t val = 0;
+
+	if (NULL == str || 0 == str_size || 5 < str_size)
+		return (0);
+	for (i = 0; i < str_size; i ++) {
+		if ('0' > str[i] || '9' < str[i])
+			return (0);
+		val = ((val * 10) + (uint32_t)(str[i] - '0'));
+	}
+
+	return ((max_val >= val));
+}
+
 /* Ex:
  * 127.0.0.1:1234
  * [2001:4f8:fff6::28]:1234
@@ -444,6 +461,9 @@ sa_addr_port_from_str(sockaddr_storage_p addr,
 				ptm_end = ptm;
 			}
 			ptm ++;
+			if (0 == sa_str_is_udec(ptm,
+			    (size_t)(buf_size - (size_t)(ptm - buf)), 0xffff))
+				return (EINVAL); /* Not a port number. */
 			port = str2u16(ptm, (size_t)(buf_size - (size_t)(ptm - buf)));
 		}/* else - IPv6 and no port. */
 	}
